@@ -185,9 +185,9 @@ class Env:
 
     def __init__(self, prefix=(), limits: Optional[dict] = None, context: Optional[dict] = None,
                  db_path: Optional[str] = None, horizon: int = 4000, extra_config: Optional[dict] = None,
-                 backend_conf: Optional[dict] = None):
+                 backend_conf: Optional[dict] = None, id_salt: int = 0):
         seams.install_determinism()
-        seams.reset_determinism()
+        seams.reset_determinism(id_salt)
         self.ctl = Controller(list(prefix), horizon)
         self.limits = limits or {}
         self.context = context
